@@ -391,6 +391,36 @@ def run(ctx):
                           "has %r" % (out[0:2], sorted(ln.attrs["_data"]),
                                       ln.attrs["_datatype"]))
     ctx.exhaustive[R] = True
+    # ------------------------------------------------------------------
+    from .c13 import rule_segment_tag_scan
+    rule_segment_tag_scan(ctx, "C20.segment_tag_scan")
+
+    # ------------------------------------------------------------------
+    R = "C20.tag_names_not_aliased"
+    ctx.rule(R, "set() resolves a FIELD_ALIAS key before it considers a new "
+             "custom tag, so a tag-shaped alias makes that tag name "
+             "unsettable on the record type (the value goes to the aliased "
+             "field). The tag-shaped aliases are exactly the reviewed ones: "
+             "LN -> slen on GFA2 segments (LN is the GFA1 name of the segment "
+             "length and is predefined there)", floor=10)
+    import re as _re
+    from ..model import record_classes, record_table
+    REVIEWED_TAG_ALIASES = {("GFA2", "S", "LN", "slen")}
+    shape = _re.compile(r"^[A-Za-z][A-Za-z0-9]$")
+    for c in record_classes(repo):
+        t = record_table(repo, c)
+        ctx.instance(R)
+        bad = sorted((a, tg) for a, tg in (t.FIELD_ALIAS or {}).items()
+                     if shape.match(a) and a not in (t.POSFIELDS or []) and
+                     (c.name, t.RECORD_TYPE, a, tg) not in REVIEWED_TAG_ALIASES)
+        ok = not bad
+        ctx.oblige(ok)
+        if not ok:
+            ctx.violation(R, c.short, "FIELD_ALIAS %r" % (bad,),
+                          "line.set(%r, v) no longer creates the tag %s on a "
+                          "%s line: the value is stored in the field %s" % (
+                              bad[0][0], bad[0][0], t.RECORD_TYPE, bad[0][1]))
+    ctx.exhaustive[R] = True
     ctx.assume("output languages of str(int), repr(float) for finite values, "
                "json.dumps (ensure_ascii) of a list/dict, upper-cased hexlify "
                "are the regular expressions PY_* of rules/c20.py (CPython 3)")
